@@ -2,6 +2,8 @@ import GraphrsModel.Obs
 import GraphrsModel.Proto
 import GraphrsModel.ObsSP
 import GraphrsModel.ObsCen
+import GraphrsModel.ObsComp
+import GraphrsModel.ObsClu
 open Graphrs
 
 /-- `store <specs> <universe> <w> <ops>`: the concrete model's and the specification's
@@ -34,6 +36,8 @@ def handle (line : String) : String :=
       | "sp" => run handleSP
       | "cen" => run handleCen
       | "eig" => run handleEig
+      | "comp" => run handleComp
+      | "clu" => run handleClu
       | _ => "bad-request command"
 
 partial def loop (h : IO.FS.Stream) (out : IO.FS.Stream) : IO Unit := do
